@@ -224,9 +224,9 @@ Qed.
 (* ------------------------------------------------------------------------------------------ *)
 (* browse: listings and archives                                                               *)
 
-Lemma browse_cases fs hide pages confs m req ae archive :
-  let out := browse fs hide pages confs m req ae archive in
-  out = serve_file fs hide pages [SLASH] m req ae \/
+Lemma browse_cases fs hide pages prefix confs m req ae archive :
+  let out := browse fs hide pages prefix confs m req ae archive in
+  out = serve_file fs hide pages prefix m req ae \/
   out = Status 501 \/ out = Status 404 \/
   (exists u, out = Redirect 301 (http_redirect req (escape_path (trim_dslash u ++ [SLASH]))) /\
              u = (match req with [] => [SLASH] | _ => req end) /\ ends_with_slash u = false /\
@@ -252,12 +252,12 @@ Proof.
     exists d. auto.
 Qed.
 
-Lemma listing_sound fs hide pages confs m req ae archive kids :
-  browse fs hide pages confs m req ae archive = Listing kids ->
+Lemma listing_sound fs hide pages prefix confs m req ae archive kids :
+  browse fs hide pages prefix confs m req ae archive = Listing kids ->
   forall k, In k kids -> In k fs /\ is_child (jail req) (n_path k) = true /\ is_hidden fs hide k = false.
 Proof.
   intros H k Hk.
-  pose proof (browse_cases fs hide pages confs m req ae archive) as C. cbv zeta in C. rewrite H in C.
+  pose proof (browse_cases fs hide pages prefix confs m req ae archive) as C. cbv zeta in C. rewrite H in C.
   destruct C as [C|[C|[C|[C|[C|C]]]]].
   - symmetry in C. exfalso. revert C. unfold serve_file.
     repeat match goal with
@@ -306,15 +306,15 @@ Proof.
     rewrite !andb_true_r in C. exact C.
 Qed.
 
-Lemma archive_sound fs hide pages confs m req ae archive ms :
-  browse fs hide pages confs m req ae archive = Archive ms ->
+Lemma archive_sound fs hide pages prefix confs m req ae archive ms :
+  browse fs hide pages prefix confs m req ae archive = Archive ms ->
   forall k, In k ms ->
     In k fs /\ is_desc (jail req) (n_path k) = true /\ is_hidden fs hide k = false /\
     (forall a, In a fs -> n_dir a = true -> is_desc (jail req) (n_path a) = true ->
                is_desc (n_path a) (n_path k) = true -> is_hidden fs hide a = false).
 Proof.
   intros H k Hk.
-  pose proof (browse_cases fs hide pages confs m req ae archive) as C. cbv zeta in C. rewrite H in C.
+  pose proof (browse_cases fs hide pages prefix confs m req ae archive) as C. cbv zeta in C. rewrite H in C.
   destruct C as [C|[C|[C|[C|[C|C]]]]].
   - symmetry in C. exfalso. exact (serve_file_not_archive _ _ _ _ _ _ _ _ C).
   - discriminate.
@@ -528,46 +528,55 @@ Proof.
   rewrite <- (rev_involutive p), E. reflexivity.
 Qed.
 
-Lemma static_redirect fs hide pages m req ae code loc :
-  rooted req -> serve_file fs hide pages [SLASH] m req ae = Redirect code loc ->
+(* [prefix] is the site's path prefix ("/" if none): the redirect target is built from
+   prefix ++ req, trimmed of leading double slashes *)
+Lemma static_redirect fs hide pages prefix m req ae code loc :
+  rooted prefix -> rooted req -> serve_file fs hide pages prefix m req ae = Redirect code loc ->
   code = 307 /\ one_slash loc = true /\ same_origin loc = true.
 Proof.
-  intros Hroot. unfold serve_file.
+  intros Hpre Hroot. unfold serve_file.
   destruct (is_get_head m); [|discriminate]. simpl negb. cbv iota.
   destruct (bad_name req); [discriminate|].
   destruct (fs_open fs req) as [d|]; [|discriminate].
-  change (beq [SLASH] [SLASH]) with true. cbv iota.
-  replace (match req with [] => [SLASH] | _ :: _ => req end) with req
-    by (destruct Hroot as (r & ->); reflexivity).
-  destruct (n_dir d && negb (ends_with_slash req)) eqn:E1.
+  set (up0 := if beq prefix [SLASH] then req else prefix ++ req).
+  assert (Hup0 : rooted up0).
+  { unfold up0. destruct (beq prefix [SLASH]); [exact Hroot|].
+    destruct Hpre as (t & ->). eexists. reflexivity. }
+  assert (Hone : up0 = [SLASH] -> req = [SLASH]).
+  { unfold up0. destruct (beq prefix [SLASH]); [auto|].
+    destruct Hpre as (t & ->). destruct Hroot as (r & ->). intros EX.
+    destruct t; discriminate. }
+  replace (match up0 with [] => [SLASH] | _ :: _ => up0 end) with up0
+    by (destruct Hup0 as (r & ->); reflexivity).
+  destruct (n_dir d && negb (ends_with_slash up0)) eqn:E1.
   - intros H. injection H as <- <-. split; [reflexivity|]. apply redirect_ok.
     apply andb_true_iff in E1 as [_ E1]. apply negb_true_iff in E1.
-    apply one_slash_snoc; [apply trim_dslash_one; exact Hroot|].
-    destruct (trim_dslash_suffix req) as (pre & E & Hne).
-    rewrite E in E1. rewrite ends_with_slash_app_suffix in E1; [exact E1|apply Hne; destruct Hroot as (r0 & ->); discriminate].
-  - destruct (negb (n_dir d) && ends_with_slash req) eqn:E2.
+    apply one_slash_snoc; [apply trim_dslash_one; exact Hup0|].
+    destruct (trim_dslash_suffix up0) as (pre & E & Hne).
+    rewrite E in E1. rewrite ends_with_slash_app_suffix in E1; [exact E1|apply Hne; destruct Hup0 as (r0 & ->); discriminate].
+  - destruct (negb (n_dir d) && ends_with_slash up0) eqn:E2.
     + intros H. injection H as <- <-. split; [reflexivity|].
       apply andb_true_iff in E2 as [_ E2].
-      pose proof (ends_with_slash_drop_last req E2) as EX.
-      destruct (drop_last req) as [|x X'] eqn:EX'.
-      * (* req = "/" *)
-        simpl in EX. subst req. vm_compute. auto.
-      * assert (x = SLASH) by (destruct Hroot as (r & Er); rewrite Er in EX; simpl in EX; injection EX as -> _; reflexivity).
+      pose proof (ends_with_slash_drop_last up0 E2) as EX.
+      destruct (drop_last up0) as [|x X'] eqn:EX'.
+      * (* prefix ++ req = "/": no prefix and req = "/" *)
+        simpl in EX. rewrite (Hone EX). vm_compute. auto.
+      * assert (x = SLASH) by (destruct Hup0 as (r & Er); rewrite Er in EX; simpl in EX; injection EX as -> _; reflexivity).
         subst x. apply redirect_ok. apply trim_dslash_one. eexists. reflexivity.
     + destruct (if n_dir d then _ else _) as [req1 d1].
       destruct (n_dir d1 || is_hidden fs hide d1); [discriminate|].
       destruct (first_sibling fs hide req1 ae gen_static_encodings) as [[sn e]|]; discriminate.
 Qed.
 
-Lemma browse_redirect fs hide pages confs m req ae archive code loc :
-  rooted req ->
-  browse fs hide pages confs m req ae archive = Redirect code loc ->
+Lemma browse_redirect fs hide pages prefix confs m req ae archive code loc :
+  rooted prefix -> rooted req ->
+  browse fs hide pages prefix confs m req ae archive = Redirect code loc ->
   one_slash loc = true /\ same_origin loc = true.
 Proof.
-  intros Hroot H.
-  pose proof (browse_cases fs hide pages confs m req ae archive) as C. cbv zeta in C. rewrite H in C.
+  intros Hpre Hroot H.
+  pose proof (browse_cases fs hide pages prefix confs m req ae archive) as C. cbv zeta in C. rewrite H in C.
   destruct C as [C|[C|[C|[C|[C|C]]]]]; try discriminate.
-  - symmetry in C. apply static_redirect in C; [tauto|exact Hroot].
+  - symmetry in C. apply static_redirect in C; [tauto|exact Hpre|exact Hroot].
   - destruct C as (u & C & Eu & Hends & _). injection C as -> ->.
     assert (Hu : u = req) by (destruct Hroot as (t & ->); exact Eu). clear Eu. subst u.
     apply redirect_ok. apply one_slash_snoc; [apply trim_dslash_one; exact Hroot|].
@@ -687,25 +696,25 @@ Proof.
   intros H. destruct (serve_file_serve _ _ _ _ _ _ _ _ _ H) as (_ & _ & _ & _ & Hh). exact Hh.
 Qed.
 
-Lemma archive_inside_root fs hide pages confs m req ae archive ms :
-  browse fs hide pages confs m req ae archive = Archive ms ->
+Lemma archive_inside_root fs hide pages prefix confs m req ae archive ms :
+  browse fs hide pages prefix confs m req ae archive = Archive ms ->
   forall k, In k ms ->
     In k fs /\ is_desc (jail req) (n_path k) = true /\ has_prefix (n_path k) (jail req) = true.
 Proof.
   intros H k Hk.
-  destruct (archive_sound _ _ _ _ _ _ _ _ _ H k Hk) as (Hin & Hd & _).
+  destruct (archive_sound _ _ _ _ _ _ _ _ _ _ H k Hk) as (Hin & Hd & _).
   split; [exact Hin|]. split; [exact Hd|]. apply is_desc_prefix. exact Hd.
 Qed.
 
-Lemma archive_never_hidden fs hide pages confs m req ae archive ms :
-  browse fs hide pages confs m req ae archive = Archive ms ->
+Lemma archive_never_hidden fs hide pages prefix confs m req ae archive ms :
+  browse fs hide pages prefix confs m req ae archive = Archive ms ->
   forall k, In k ms ->
     is_hidden fs hide k = false /\
     (forall a, In a fs -> n_dir a = true -> is_desc (jail req) (n_path a) = true ->
                is_desc (n_path a) (n_path k) = true -> is_hidden fs hide a = false).
 Proof.
   intros H k Hk.
-  destruct (archive_sound _ _ _ _ _ _ _ _ _ H k Hk) as (_ & _ & Hh & Ha). auto.
+  destruct (archive_sound _ _ _ _ _ _ _ _ _ _ H k Hk) as (_ & _ & Hh & Ha). auto.
 Qed.
 
 (* ---- the whole site: internal -> browse -> static ---- *)
@@ -721,15 +730,15 @@ Qed.
 
 Lemma handle_cases (s : site) (r : request) :
   handle s r = Status 404 \/
-  handle s r = browse (s_fs s) (s_hide s) (s_pages s) (s_browse s) (q_meth r) (q_path r) (q_ae r) (q_archive r).
+  handle s r = browse (s_fs s) (s_hide s) (s_pages s) (s_prefix s) (s_browse s) (q_meth r) (q_path r) (q_ae r) (q_archive r).
 Proof. unfold handle. destruct (internal_blocks (s_internal s) (q_path r)); auto. Qed.
 
-Lemma browse_serve fs hide pages confs m req ae archive n enc :
-  browse fs hide pages confs m req ae archive = Serve n enc ->
-  serve_file fs hide pages [SLASH] m req ae = Serve n enc.
+Lemma browse_serve fs hide pages prefix confs m req ae archive n enc :
+  browse fs hide pages prefix confs m req ae archive = Serve n enc ->
+  serve_file fs hide pages prefix m req ae = Serve n enc.
 Proof.
   intros H.
-  pose proof (browse_cases fs hide pages confs m req ae archive) as C. cbv zeta in C. rewrite H in C.
+  pose proof (browse_cases fs hide pages prefix confs m req ae archive) as C. cbv zeta in C. rewrite H in C.
   destruct C as [C|[C|[C|[C|[C|C]]]]]; try discriminate.
   - symmetry. exact C.
   - destruct C as (u & C & _). discriminate.
@@ -752,18 +761,18 @@ Lemma site_sound (s : site) (r : request) :
                            has_prefix (n_path k) (jail (q_path r)) = true /\
                            is_hidden (s_fs s) (s_hide s) k = false
   | Redirect code loc =>
-      rooted (q_path r) -> one_slash loc = true /\ same_origin loc = true
+      rooted (s_prefix s) -> rooted (q_path r) -> one_slash loc = true /\ same_origin loc = true
   | Status _ => True
   end.
 Proof.
   destruct (handle_cases s r) as [E|E]; [rewrite E; exact I|].
   destruct (handle s r) as [c|c loc|n enc|kids|ms] eqn:H; [exact I| | | |]; symmetry in E.
-  - intros Hr. eapply browse_redirect; eassumption.
+  - intros Hp Hr. eapply browse_redirect; [exact Hp|exact Hr|exact E].
   - apply browse_serve in E.
     destruct (serve_file_serve _ _ _ _ _ _ _ _ _ E) as (Hm & Hin & Hs & Hn & Hh).
     repeat split; auto.
   - intros k Hk. eapply listing_sound; eassumption.
   - intros k Hk.
-    destruct (archive_inside_root _ _ _ _ _ _ _ _ _ E k Hk) as (H1 & H2 & H3).
-    destruct (archive_never_hidden _ _ _ _ _ _ _ _ _ E k Hk) as (H4 & _). auto.
+    destruct (archive_inside_root _ _ _ _ _ _ _ _ _ _ E k Hk) as (H1 & H2 & H3).
+    destruct (archive_never_hidden _ _ _ _ _ _ _ _ _ _ E k Hk) as (H4 & _). auto.
 Qed.
